@@ -318,6 +318,15 @@ func (ex *Exec) symbolicValue(name string, t types.Type) Value {
 			av.Elems[i] = ex.symbolicValue(fmt.Sprintf("%s[%d]", name, i), u.Elem())
 		}
 		return av
+	case *types.Slice:
+		// arbitrary slice: arbitrary non-negative length, arbitrary elements
+		sv := &SymSliceV{Len: ts.Var(name+".len", BVSort(64)), Elem: u.Elem()}
+		ex.facts = append(ex.facts, ts.BVCmp(OpBVSle, ts.BV(0, 64), sv.Len))
+		for _, lf := range ex.elemLeaves(u.Elem()) {
+			sv.Arrs = append(sv.Arrs, ts.Var(name+"."+lf.name, ArraySort(refSort, lf.sort)))
+		}
+		ex.inputs = append(ex.inputs, &InputVar{Name: name + ".len", Term: sv.Len, Type: types.Typ[types.Int]})
+		return sv
 	case *types.Map:
 		ks, vs := ex.mapSorts(u)
 		v := ts.Var(name, ArraySort(ks, vs))
